@@ -1143,6 +1143,13 @@ func (g *gen) run() {
 		g.depthFacts = true
 	}
 	if g.ctr != nil {
+		for _, ls := range g.ctr.Loops {
+			if ls.Decreases != nil {
+				g.depthFacts = true
+			}
+		}
+	}
+	if g.ctr != nil {
 		env := g.specEnvAtEntry()
 		if g.ctr.Decreases != nil {
 			if m, err := g.evalSpec(env, g.ctr.Decreases.E); err != nil {
